@@ -377,6 +377,8 @@ func streamPanic(c *Ctx) {
 	sharedOptionRecoverProbe(c)
 	invalidUTF8PanicProbe(c)
 	recoveredErrorExactProbe(c)
+	sharedRecoveryErrorProbe(c)
+	recoveryAfterDeadlineProbe(c)
 	// clean call followed by a panicking call on the same handler (state must not leak)
 	for _, kind := range kinds {
 		sequenceProbe(c, kind)
@@ -552,6 +554,86 @@ func recoveredErrorExactProbe(c *Ctx) {
 				if want := `code=data_loss message="panic: " own-shared-value=true recover-only=["r1"]`; got != want {
 					c.Fail("recover-error-exact", desc, got, "the client receives the error the recovery function returned: "+want)
 				}
+			}
+		}
+	}
+}
+
+// sharedRecoveryErrorProbe: a recovery function may well return one preallocated error for every
+// panic (no leaking of panic values). Each client still receives *that* error - not that error
+// plus what earlier calls' handlers had put into their trailers (round 10, C19-mm).
+func sharedRecoveryErrorProbe(c *Ctx) {
+	for _, proto := range []string{"connect", "grpc", "grpcweb"} {
+		shared := connect.NewError(connect.CodeInternal, errors.New("internal error"))
+		shared.Meta().Set("X-Static", "s")
+		n := 0
+		h := connect.NewServerStreamHandler("/s/m", func(ctx context.Context, r *connect.Request[[]byte], s *connect.ServerStream[[]byte]) error {
+			n++
+			s.ResponseTrailer().Set("X-Call", fmt.Sprint(n))
+			_ = s.Send(&[]byte{1})
+			panic("boom")
+		}, connect.WithCodec(rawCodec{"raw"}), connect.WithRecover(func(context.Context, connect.Spec, http.Header, any) error { return shared }))
+		var seen []string
+		for i := 0; i < 3; i++ {
+			v := callClient(proto, "server", &inprocClient{h: h}, nil, [][]byte{{1}})
+			var ce *connect.Error
+			if errors.As(v.err, &ce) {
+				seen = append(seen, fmt.Sprintf("%s X-Call=%q X-Static=%q", ce.Code(), ce.Meta().Values("X-Call"), ce.Meta().Values("X-Static")))
+			} else {
+				seen = append(seen, fmt.Sprintf("no coded error: %v", v.err))
+			}
+		}
+		c.Count("shared-recovery-error")
+		want := `internal X-Call=["1"] X-Static=["s"] | internal X-Call=["2"] X-Static=["s"] | internal X-Call=["3"] X-Static=["s"]`
+		if got := strings.Join(seen, " | "); got != want {
+			c.Fail("recover-error-exact", proto+": three server-stream calls whose handler sets trailer X-Call and panics; the recovery function returns one preallocated error", got, "each client receives the recovery function's error with its own call's trailers: "+want)
+		}
+	}
+}
+
+// recoveryAfterDeadlineProbe: the peer's timeout has passed by the time the handler panics; the
+// recovery function returns a plain Go error. The client receives that error - unknown, as every
+// uncoded error - not a code made up from the state of the handler's context (round 10, C19-mn).
+func recoveryAfterDeadlineProbe(c *Ctx) {
+	for _, proto := range []string{"connect", "grpc", "grpcweb"} {
+		for _, kind := range []string{"unary", "server"} {
+			f := func(context.Context, connect.Spec, http.Header, any) error {
+				return errors.New("recovered: something broke")
+			}
+			var h http.Handler
+			if kind == "unary" {
+				h = connect.NewUnaryHandler("/s/m", func(ctx context.Context, r *connect.Request[[]byte]) (*connect.Response[[]byte], error) {
+					<-ctx.Done()
+					panic("boom")
+				}, connect.WithCodec(rawCodec{"raw"}), connect.WithRecover(f))
+			} else {
+				h = connect.NewServerStreamHandler("/s/m", func(ctx context.Context, r *connect.Request[[]byte], s *connect.ServerStream[[]byte]) error {
+					_ = s.Send(&[]byte{1})
+					<-ctx.Done()
+					panic("boom")
+				}, connect.WithCodec(rawCodec{"raw"}), connect.WithRecover(f))
+			}
+			body := []byte{1}
+			if !(proto == "connect" && kind == "unary") {
+				body = frame(0, body)
+			}
+			req := httptest.NewRequest(http.MethodPost, "/s/m", bytes.NewReader(body))
+			req.ProtoMajor, req.ProtoMinor, req.Proto = 2, 0, "HTTP/2.0"
+			req.Header.Set("Content-Type", ctFor(proto, kind, "raw"))
+			if proto == "connect" {
+				req.Header.Set("Connect-Timeout-Ms", "30")
+			} else {
+				req.Header.Set("Grpc-Timeout", "30m")
+			}
+			rec := httptest.NewRecorder()
+			got := safely(func() string {
+				h.ServeHTTP(rec, req)
+				code, note := responseErrorCode(proto, kind, rec)
+				return fmt.Sprintf("code=%d malformed=%q", code, strings.TrimSpace(note))
+			})
+			c.Count("recovery-after-deadline")
+			if got != "code=2 malformed=\"\"" {
+				c.Fail("recover-error-exact", fmt.Sprintf("%s %s handler panics after the peer's 30 ms timeout has passed; the recovery function returns a plain error", proto, kind), got, "the peer receives the error the recovery function returned: unknown (code=2)")
 			}
 		}
 	}
